@@ -76,8 +76,10 @@ Dup(S, G, k, sfx, msfx, sub) ==
                       !.imports = IF isD THEN FlatMap(@, LAMBDA im : newImp(pr, im)) ELSE @,
                       !.src = "disk"]
       cloneMod(m) == [m EXCEPT !.name = @ \o ms, !.file = m.name \o ms, !.src = "disk"]
-      newProcs == {cloneProc(pr) : pr \in {r \in Procs(S.P) : (r.mod = "" /\ ItemOfProc(r) \in D) \/ (r.mod # "" /\ r.mod \in cmods)}}
-      newMods == {cloneMod(m) : m \in {x \in Mods(S.P) : x.name \in cmods}}
+      \* (a clone that exists already -- the item cache knows its name -- is used as it is)
+      isNew(u) == IF u.mod = "" THEN ProcItem("", u.name) \notin AllItems(S.P) ELSE u.mod \notin ModNames(S.P)
+      newProcs == {u \in {cloneProc(pr) : pr \in {r \in Procs(S.P) : (r.mod = "" /\ ItemOfProc(r) \in D) \/ (r.mod # "" /\ r.mod \in cmods)}} : isNew(u)}
+      newMods == {u \in {cloneMod(m) : m \in {x \in Mods(S.P) : x.name \in cmods}} : u.name \notin ModNames(S.P)}
       \* callers: every processed routine that calls the name k calls the clone as well and imports it
       headOf(pr) == CHOOSE q \in heads : q = Callee(S, pr, k)
       caller(pr) ==
@@ -85,8 +87,13 @@ Dup(S, G, k, sfx, msfx, sub) ==
         THEN [pr EXCEPT !.calls = FlatMap(@, LAMBDA c : IF c = k THEN <<c, c \o sfx>> ELSE <<c>>),
                         !.imports = (IF headOf(pr).scope # "" THEN <<[mod |-> headOf(pr).scope \o ms, only |-> <<k \o sfx>>]>> ELSE <<>>) \o @]
         ELSE pr
+      \* a cloned module that exists already (an earlier dup of a sibling) is reused: the routine is renamed in it
+      inClone(pr) ==
+        IF \E n \in D : n.scope # "" /\ pr.mod = n.scope \o ms /\ pr.name = n.local
+        THEN [pr EXCEPT !.name = @ \o sfx] ELSE pr
   IN IF heads = {} THEN S
-     ELSE [S EXCEPT !.P = [mods |-> S.P.mods \o SetToSeq(newMods), procs |-> MapS(S.P.procs, caller) \o SetToSeq(newProcs)]]
+     ELSE [S EXCEPT !.P = [mods |-> S.P.mods \o SetToSeq(newMods),
+                           procs |-> MapS(MapS(S.P.procs, caller), inClone) \o SetToSeq(newProcs)]]
 
 ---------------------------------------------------------------------------------------------
 (* wrap: in every processed file all of whose items are kernels, each free routine r becomes a    *)
@@ -150,9 +157,11 @@ Dep(S, G, sfx, msfx) ==
       \* procedures of a renamed module that are not in the graph are removed from the copy
       dropped(pr) == pr.mod \in KM /\ ~processed(pr)
       keptProcs == SelectSeq(S.P.procs, LAMBDA pr : ~dropped(pr))
-      \* (units of these files that are still present as read from disk are simply found again)
-      backProcs == {pr \in Procs(S.P0) : pr.file \in refiles} \ Range(MapS(keptProcs, procOf))
-      backMods == {m \in Mods(S.P0) : m.file \in refiles} \ Range(MapS(S.P.mods, modOf))
+      \* (a unit whose name is still known -- not renamed, e.g. a driver in a module with kernels -- is not read again)
+      remProcs == Range(MapS(keptProcs, procOf))
+      remMods == Range(MapS(S.P.mods, modOf))
+      backProcs == {pr \in Procs(S.P0) : pr.file \in refiles /\ ~\E r \in remProcs : r.name = pr.name /\ r.mod = pr.mod}
+      backMods == {m \in Mods(S.P0) : m.file \in refiles /\ ~\E r \in remMods : r.name = m.name}
       newFull(it) == IF it.kind = "mod" THEN newMod(it.local)
                      ELSE newMod(it.scope) \o "#" \o (IF it \in K THEN it.local \o sfx ELSE it.local)
       renamed == {n \in PN : newFull(n) # Full(n)}
@@ -178,17 +187,19 @@ Apply(S, o) == ApplyG(S, Graph(S), o)
 (* the trace specification evaluates the same operators on the projected state of the real         *)
 (* scheduler, the model checker on Apply.                                                         *)
 
-\* every call and import of a processed routine / module refers to a program unit that exists
-DanglingCalls(P, nodes) ==
-  {<<Full(n), c>> : n \in {x \in nodes : x.kind = "proc"}, c \in UNION {Range(pr.calls) : pr \in Procs(P)}}
-RefsOf(P, n) == IF n.kind = "proc" THEN Range(ProcRecOf(P, n).calls) ELSE {}
+\* every call and import in a set of program units refers to a program unit of P
+ProcRefsLegal(P, pr) ==
+  /\ \A c \in Range(pr.calls) : CallLegal(P, pr, c)
+  /\ \A im \in Range(pr.imports) : ImportLegal(P, im, pr.mod)
+ModRefsLegal(P, m) == \A im \in Range(m.imports) : ImportLegal(P, im, m.name)
+AllRefsLegal(P) == (\A pr \in Procs(P) : ProcRefsLegal(P, pr)) /\ (\A m \in Mods(P) : ModRefsLegal(P, m))
+\* ... in the processed sources: the files (source objects) of the items of the graph
+SameSource(u, v) == u.file = v.file /\ u.src = v.src
+UnitOf(P, n) == IF n.kind = "proc" THEN ProcRecOf(P, n) ELSE ModRec(P, n.local)
 NoDanglingRef(P, nodes) ==
-  \A n \in nodes :
-     IF n.kind = "proc"
-     THEN LET pr == ProcRecOf(P, n)
-          IN /\ \A c \in Range(pr.calls) : CallLegal(P, pr, c)
-             /\ \A im \in Range(pr.imports) \cup Range(HostImports(P, pr)) : ImportLegal(P, im, pr.mod)
-     ELSE \A im \in Range(ModRec(P, n.local).imports) : ImportLegal(P, im, n.local)
+  LET us == {UnitOf(P, n) : n \in nodes}
+  IN /\ \A pr \in Procs(P) : (\E u \in us : SameSource(u, pr)) => ProcRefsLegal(P, pr)
+     /\ \A m \in Mods(P) : (\E u \in us : SameSource(u, m)) => ModRefsLegal(P, m)
 
 \* names are unique among the units the scheduler knows (two units of one name cannot be linked)
 UniqueUnits(P) ==
